@@ -13,7 +13,10 @@ from .terms import (alternatives, expand_outcomes, Attr, Call, ClassRef, Const, 
 
 def _cli_eval(ctx: Ctx) -> Evaluator:
     def pol(fi: FunctionInfo, depth: int) -> bool:
-        return fi.module.name == 'hpl.cli' and default_inline(fi, depth)
+        if fi.module.name == 'hpl.cli':
+            return default_inline(fi, depth)
+        # a serialisation helper kept next to the AST classes (it is the one that calls attrs.asdict)
+        return fi.cls is None and default_inline(fi, depth) and any(isinstance(n, ast.Call) and ast.unparse(n.func).split('.')[-1] == 'asdict' for n in ast.walk(fi.node))
     return Evaluator(ctx.model, inline=pol)
 
 
